@@ -223,6 +223,10 @@ def _root_keys(filter):
             for item in value:
                 for key in _root_keys(item):
                     yield key
+        elif key == "$not":
+            # The operand of $not is a filter itself: its keys decide which
+            # namespaces (sp, doc) have to be indexed.
+            yield from _root_keys(value)
         elif "." in key:
             yield key.split(".", 1)[0]
         else:
